@@ -68,6 +68,10 @@ def _mk_truthy(subject: Term, holder: str, heap: str, atoms: Dict[str, bool], fr
             if not atoms["H"]:
                 raise Crash("reads %s[0] of an empty heap" % heap)
             return frozenset(["heap"])
+        if t[0] == "idx" and t[1] == hp:
+            return frozenset([f"other:{heap}[{T.show(t[2])}] (not the heap minimum)"])
+        if t[0] == "attr" and t[1] == subject and t[2] not in (holder, heap):
+            return frozenset([f"other:{t[2]} (not a pending step)"])
         if t[0] == "ifexp":
             return outcome(t[2]) if ev(t[1]) else outcome(t[3])
         if t[0] == "phi":
@@ -202,6 +206,10 @@ def judge_pending(table: Dict[Tuple[bool, bool], Set[str]], need_inflight: bool,
         if crashes:
             problems.append(f"{state}: {crashes[0][6:]}")
             continue
+        others = [p for p in present if p.startswith("other:")]
+        if others:
+            problems.append(f"{state}: the bound uses {others[0][6:]}")
+            continue
         if need_inflight and C and "cur" not in present:
             problems.append(f"{state}: the step in flight ({holder}) does not enter the bound; it depends on {heap} only" if H or present else
                             f"{state}: the step in flight ({holder}) does not enter the bound")
@@ -224,7 +232,10 @@ def _peel_offset(t: Term) -> Tuple[Term, int]:
 
 def _min_bag(t: Term) -> Tuple[Optional[Term], int, str]:
     """sink expression -> (bag, outer integer offset, aggregator name)"""
-    t, off = _peel_offset(T.strip(t))
+    t = T.strip(t)
+    if t[0] == "op" and t[1] == "-" and t[2][0] == "const" and t[3][0] == "agg":
+        return t[3][2], 0, "negated " + t[3][1]
+    t, off = _peel_offset(t)
     if t[0] == "agg":
         return t[2], off, t[1]
     return None, off, ""
@@ -342,8 +353,8 @@ def _advance_progress(ctx: Ctx, c: Collector, holder: str, heap: str) -> None:
         divs = [x for x in T.subterms(e[1]) if x[0] == "op" and x[1] == "/" and x[3] == rtf]
         if not divs:
             pr.append("elapsed wall-clock time is not divided by world.rt_factor")
-        elif not T.contains(divs[0][2], ("attr", sim, "rt_start")):
-            pr.append("elapsed time is not measured from sim.rt_start")
+        elif T.strip(divs[0][2]) not in (("op", "-", call(T.glob("time.perf_counter")), ("attr", sim, "rt_start")),):
+            pr.append(f"elapsed time is {T.show(divs[0][2])[:60]} instead of perf_counter() - sim.rt_start")
         if pr:
             c.bad("rt", ADV, "rt-term", "; ".join(pr), loc)
         else:
@@ -373,6 +384,9 @@ def _max_advance(ctx: Ctx, c: Collector, holder: str, heap: str) -> None:
     until_names = [p for p in fi.params if p == "until"]
     untils = [("attr", world, "until")] + [T.var(p) for p in until_names]
     rets = [r for r in s.returns]
+    if not rets:
+        c.bad("sink", MAXADV, "return", "get_max_advance returns nothing", fi.loc)
+        return
     if len(rets) != 1 or rets[0].guards:
         c.unk("sink", MAXADV, "return", "more than one return / conditional return", fi.loc)
         return
